@@ -116,6 +116,25 @@ def check_tables() -> list:
             if got != want:
                 rp.bad(f"C07:pinned-shape-differs:{name}", f"v{v}: table {got} pinned {want}")
         res.append(({"t": "table", "v": v, "pins": True}, rp))
+        # golden snapshot of every command's frame ID and wire shape (tools/mkshapes.py): table and struct edits that the
+        # round trips cannot see because they draw their expectations from the same tables
+        gold = json.load(open(os.path.join(os.path.dirname(values.__file__), "ezsp_shapes_all.json"))).get(str(v), {})
+        rg = Result(nontrivial=True, classes=["golden-shapes"], key=["gold", v])
+        for name in sorted(set(gold) | set(cls.COMMANDS)):
+            if name not in cls.COMMANDS:
+                rg.bad(f"C07:golden:command-missing:{name}", f"v{v}")
+                continue
+            if name not in gold:
+                rg.bad(f"C07:golden:command-unexpected:{name}", f"v{v}")
+                continue
+            cid, tx, rx = cls.COMMANDS[name]
+            try:
+                got = [cid, values.schema_shape(tx), values.schema_shape(rx)]
+            except Exception as ex:
+                got = repr(ex)
+            if got != gold[name]:
+                rg.bad(f"C07:golden:shape-differs:{name}", f"v{v}: table {got} snapshot {gold[name]}")
+        res.append(({"t": "table", "v": v, "gold": True}, rg))
     return res
 
 
@@ -298,7 +317,7 @@ def replay(plan) -> Result:
     """Replay by regeneration: plan = {"v":..,"name":..,"seed":..}: draws the same strategy under a fixed seed."""
     if plan.get("t") == "table":
         for p, r in check_tables():
-            if p["v"] == plan["v"] and bool(p.get("pins")) == bool(plan.get("pins")):
+            if p["v"] == plan["v"] and bool(p.get("pins")) == bool(plan.get("pins")) and bool(p.get("gold")) == bool(plan.get("gold")):
                 return r
     if "txb" in plan:
         import bellows.ezsp as e
